@@ -909,3 +909,105 @@ pub fn suite_race(ctx: &mut Ctx, seed: u64, n: usize, opname: &str) {
         let _ = fs::remove_dir_all(&top);
     }
 }
+
+// ---------------------------------------------------------------------------
+// reopen from a thread with its own descriptor table (C09)
+// ---------------------------------------------------------------------------
+
+/// A thread that has called `unshare(CLONE_FILES)` has its own descriptor table; the same number
+/// means something else in the rest of the process.  `reopen` must go through *this thread's* table.
+pub fn suite_reopen_unshared(ctx: &mut Ctx) {
+    use std::sync::mpsc;
+    let top = ctx.work.join("unshared");
+    let _ = fs::remove_dir_all(&top);
+    fs::create_dir_all(top.join("root")).unwrap();
+    fs::write(top.join("root/victim"), b"VICTIM").unwrap();
+    fs::write(top.join("root/decoy"), b"DECOY").unwrap();
+    let rootdir = top.join("root");
+    for (round, emulated) in [(0, true), (1, false)] {
+        if !emulated && ctx.no_openat2 {
+            continue;
+        }
+        let (tx_fd, rx_fd) = mpsc::channel::<i32>();
+        let (tx_go, rx_go) = mpsc::channel::<()>();
+        let rootdir2 = rootdir.clone();
+        let worker = std::thread::spawn(move || {
+            // from here on this thread has a private copy of the descriptor table
+            if unsafe { libc::unshare(libc::CLONE_FILES) } != 0 {
+                return None;
+            }
+            let mut root = Root::open(&rootdir2).expect("open root");
+            root.verif_set_emulated(emulated);
+            let handle = root.resolve("victim").expect("resolve victim");
+            let n = handle.as_fd().as_raw_fd();
+            tx_fd.send(n).unwrap();
+            rx_go.recv().unwrap();
+            let cfg = cfg_line(&root, emulated, ResolverFlags::empty());
+            let hline = {
+                let mut st: libc::stat = unsafe { std::mem::zeroed() };
+                unsafe { libc::fstat(n, &mut st) };
+                (st.st_dev, st.st_ino)
+            };
+            let (r, log) = ops::recorded(None, || handle.reopen(pathrs::flags::OpenFlags::O_RDONLY));
+            let (line, verdict) = match r {
+                Ok(Ok(f)) => {
+                    let mut st: libc::stat = unsafe { std::mem::zeroed() };
+                    unsafe { libc::fstat(f.as_raw_fd(), &mut st) };
+                    let same = (st.st_dev, st.st_ino) == hline;
+                    let fl = unsafe { libc::fcntl(f.as_raw_fd(), libc::F_GETFL) };
+                    let fdfl = unsafe { libc::fcntl(f.as_raw_fd(), libc::F_GETFD) };
+                    (
+                        format!("res ok fd fd={} label=1 kind=f fl={fl} cloexec={}", f.as_raw_fd(), fdfl & 1),
+                        if same { "unshared same".to_string() } else { "unshared OTHER the reopened descriptor is the leader's file at that number".to_string() },
+                    )
+                }
+                Ok(Err(e)) => (
+                    format!("res err {}", ops::kind_str(&e.kind())),
+                    format!("unshared OTHER reopen failed: {}", ops::kind_str(&e.kind())),
+                ),
+                Err(_) => ("res panic x".to_string(), "unshared OTHER panic".to_string()),
+            };
+            Some((n, cfg, log, line, verdict))
+        });
+        // the leader puts another file at the number the worker's handle has
+        let n = match rx_fd.recv() {
+            Ok(n) => n,
+            Err(_) => {
+                let _ = worker.join();
+                continue;
+            }
+        };
+        let decoy = fs::File::open(rootdir.join("decoy")).unwrap();
+        let had = unsafe { libc::fcntl(n, libc::F_GETFD) } >= 0;
+        let saved = if had { Some(unsafe { libc::dup(n) }) } else { None };
+        unsafe { libc::dup2(decoy.as_raw_fd(), n) };
+        tx_go.send(()).unwrap();
+        let res = worker.join().ok().flatten();
+        // restore the leader's table
+        match saved {
+            Some(s) => unsafe {
+                libc::dup2(s, n);
+                libc::close(s);
+            },
+            None => unsafe {
+                libc::close(n);
+            },
+        }
+        if let Some((n, cfg, log, line, verdict)) = res {
+            let mut s = String::new();
+            s.push_str(&format!("case u{round}\nmeta seed=0 suite=reopen target=victim nofollow=0 history=unshared fdnum={n}\n"));
+            s.push_str("tree 0\n");
+            s.push_str(&format!("op reopen 0 {} x76696374696d\n", libc::O_RDONLY));
+            s.push_str(&cfg);
+            s.push('\n');
+            s.push_str(&format!("handle fd={n} label=1 kind=f fl=0 cloexec=1\n"));
+            s.push_str(&fmt::transcript(&log));
+            s.push_str(&line);
+            s.push('\n');
+            s.push_str(&verdict);
+            s.push_str("\nfdt same\nend\n");
+            ctx.out.write_all(s.as_bytes()).unwrap();
+        }
+    }
+    let _ = fs::remove_dir_all(&top);
+}
